@@ -24,6 +24,17 @@ func NewNotifier(app *protocol.ApplicationContext, modules map[string]NotifierMo
 	return &Notifier{c: notifier.VerifNewCoordinator(app, modules, minInterval)}
 }
 
+// ConfigureNotifier runs the real Configure of a fresh notifier coordinator against viper.
+func ConfigureNotifier(app *protocol.ApplicationContext) *Notifier {
+	return &Notifier{c: notifier.VerifConfigure(app)}
+}
+
+// ModuleLists reports, per module, the allowlist and denylist patterns it was constructed with.
+func (n *Notifier) ModuleLists() map[string][2]string { return n.c.VerifModuleLists() }
+
+// MinInterval is the shortest module interval found by Configure.
+func (n *Notifier) MinInterval() int64 { return n.c.VerifMinInterval() }
+
 // AddGroup registers a group record.
 func (n *Notifier) AddGroup(cluster, group string, lastEvalAgo time.Duration) {
 	n.c.VerifAddGroup(cluster, group, lastEvalAgo)
